@@ -5,6 +5,7 @@ import (
 	"io"
 	"math"
 	"testing"
+	"unsafe"
 
 	"github.com/CrowdStrike/csproto"
 	"pgregory.net/rapid"
@@ -340,11 +341,16 @@ func (r *run) exec(c call) {
 				}
 			}
 		}
-		// slices handed back must lie inside the input
+		// slices handed back must either lie inside input[0:len] or not share memory with the input's
+		// array at all (a copy)
 		if oa.retSlice != nil && len(oa.retSlice) > 0 {
-			x := cap(r.viewA) - cap(oa.retSlice)
-			if x < 0 || x+len(oa.retSlice) > n || &r.viewA[:cap(r.viewA)][x] != &oa.retSlice[0] {
-				w.Violate("slice-outside-input|"+name, fmt.Sprintf("%v at offset %d returned a %d-byte slice that is not within input[0:%d] (start %d)", c, old, len(oa.retSlice), n, x))
+			full := r.viewA[:cap(r.viewA)]
+			base := uintptr(unsafe.Pointer(&full[0]))
+			p := uintptr(unsafe.Pointer(&oa.retSlice[0]))
+			if p >= base && p < base+uintptr(len(full)) {
+				if x := int(p - base); x+len(oa.retSlice) > n {
+					w.Violate("slice-outside-input|"+name, fmt.Sprintf("%v at offset %d returned a %d-byte slice starting at %d of the input's array; the input has %d bytes", c, old, len(oa.retSlice), x, n))
+				}
 			}
 		}
 	}
